@@ -35,6 +35,7 @@ func runLockRules(p *core.Prog, rep *core.Report, withDatatype bool) *lockset {
 	rep.Rule("LK5", "pairing: no release of an unheld lock, no re-acquisition of a held lock (self-deadlock), entry lockset = exit lockset on every path (NewBatch/Commit are the one protocol pair)")
 	rep.Rule("LK6", "lock order: the may-hold graph is acyclic")
 	rep.Rule("LK7", "shard-lock mode: a shard container is called only under its shard lock, and under the READ lock only if no implementation of the method writes shared state (writes-through-receiver summary over the three index implementations and btree/skiplist)")
+	rep.Rule("LK12", "scratch buffers: a []byte field of DB that shared code never re-assigns (initialised once in Open) is loaded only while the database WRITER lock is held")
 	rep.Rule("LK10", "active-file discipline: every DataFile method call whose receiver is, on the path taken, the shared database's active file is made while the database lock is held (R or W); rotated files are immutable and may be read lock-free")
 	rep.Rule("LK8", "batch typestate: invariant (not committed => DB writer lock held by the batch) & (committed => not held) is preserved by every exported Batch method; a committed batch performs no effect")
 
@@ -274,12 +275,12 @@ func C08(p *core.Prog, rep *core.Report) {
 	_ = l
 	// C08 keeps the clauses its mechanism list names: LK3, LK4, LK7 (per-shard atomicity), TB2 (positions immutable)
 	for k, v := range full.Rules {
-		if k == "LK3" || k == "LK4" || k == "LK7" || k == "LK5" || k == "LK9" || k == "LK10" {
+		if k == "LK3" || k == "LK4" || k == "LK7" || k == "LK5" || k == "LK9" || k == "LK10" || k == "LK12" {
 			rep.Rule(k, v)
 		}
 	}
 	for _, o := range full.Obls {
-		keep := o.Rule == "LK3" || o.Rule == "LK4" || o.Rule == "LK7" || o.Rule == "LK9" || o.Rule == "LK10" || (o.Rule == "LK5" && (strings.Contains(o.Construct, "ShardedIndex") || strings.Contains(o.Construct, "(*xixi_kv.DB).Put") || strings.Contains(o.Construct, "(*xixi_kv.DB).Delete") || strings.Contains(o.Construct, "(*xixi_kv.DB).Get")))
+		keep := o.Rule == "LK3" || o.Rule == "LK4" || o.Rule == "LK7" || o.Rule == "LK9" || o.Rule == "LK10" || o.Rule == "LK12" || (o.Rule == "LK5" && (strings.Contains(o.Construct, "ShardedIndex") || strings.Contains(o.Construct, "(*xixi_kv.DB).Put") || strings.Contains(o.Construct, "(*xixi_kv.DB).Delete") || strings.Contains(o.Construct, "(*xixi_kv.DB).Get")))
 		if keep {
 			rep.Add(*o)
 		}
